@@ -50,7 +50,12 @@ class VLoop(asyncio.BaseEventLoop):
         self._idle = False
         self._spins = 0
         self.errors = []          # unhandled task exceptions etc.
+        self.jitter = 0.0         # every timer fires this much late (real timers never fire early
+                                  # or exactly on time)
         self.set_exception_handler(self._on_error)
+
+    def call_at(self, when, callback, *args, context=None):
+        return super().call_at(when + self.jitter, callback, *args, context=context)
 
     def _on_error(self, loop, context):
         exc = context.get('exception')
